@@ -3,9 +3,11 @@ package sqlite
 import (
 	"bytes"
 	"context"
+	"database/sql"
 	"encoding/json"
 	"fmt"
 	"math/rand/v2"
+	"path/filepath"
 	"strings"
 	"testing"
 	"time"
@@ -514,6 +516,135 @@ func TestVerif_C16(t *testing.T) {
 			rep.Sample(map[string]any{"handler": "sqlite", "exchange": log[:min(14, len(log))]})
 		}
 	})
+	// (c) large caches: dump/restore with hundreds of events and many equal timestamps
+	nC := vk.N(16, 200)
+	vk.Parallel(nC, func(i int) {
+		r := vk.RNG("C16/bigdump", i)
+		capacity := 110 + r.IntN(300)
+		h := mocrelay.NewCacheHandler(capacity)
+		g := vk.NewStoreGen(r, 3, int64(20+r.IntN(100)))
+		fg := &vk.FilterGen{R: r, Authors: g.Authors, TimeLo: g.TimeBase, TimeHi: g.TimeBase + g.TimeRange}
+		var ms []c16Msg
+		for k, n := 0, capacity/2+r.IntN(capacity); k < n; k++ {
+			ms = append(ms, c16Msg{msg: &mocrelay.ClientEventMsg{Event: g.Next()}})
+		}
+		fg.Events = g.Offered
+		s := vk.StartSession(ctx, h, 0)
+		replies, ok := c16Pipeline(s, ms, "zz-sentinel")
+		s.Stop()
+		rep.Eval(1)
+		if !ok || len(replies) != len(ms) {
+			rep.Violation("replies/stalled", fmt.Sprintf("%d EVENTs, %d replies", len(ms), len(replies)), map[string]any{"capacity": capacity})
+			return
+		}
+		var buf bytes.Buffer
+		if err := h.Dump(&buf); err != nil {
+			rep.Violation("dump/error", err.Error(), nil)
+			return
+		}
+		h2 := mocrelay.NewCacheHandler(capacity)
+		if err := h2.Restore(bytes.NewReader(buf.Bytes())); err != nil {
+			rep.Violation("restore/error", err.Error(), nil)
+			return
+		}
+		panel := []c16Msg{{msg: &mocrelay.ClientReqMsg{SubscriptionID: "p-all", ReqFilters: []*mocrelay.ReqFilter{{}}}},
+			{msg: &mocrelay.ClientReqMsg{SubscriptionID: "p-k1", ReqFilters: []*mocrelay.ReqFilter{{Kinds: []int64{1}}}}}}
+		for q := 0; q < 20; q++ {
+			panel = append(panel, c16Msg{msg: &mocrelay.ClientReqMsg{SubscriptionID: fmt.Sprintf("p%d", q), ReqFilters: fg.Filters(3)}})
+		}
+		s1 := vk.StartSession(ctx, h, 0)
+		r1, ok1 := c16Pipeline(s1, panel, "zz-p")
+		s1.Stop()
+		s2 := vk.StartSession(ctx, h2, 0)
+		r2, ok2 := c16Pipeline(s2, panel, "zz-p")
+		s2.Stop()
+		if !ok1 || !ok2 {
+			rep.Violation("restore/panel-stalled", "query panel not answered", nil)
+			return
+		}
+		d1, d2 := c16DescribeReplies(r1), c16DescribeReplies(r2)
+		if strings.Join(d1, "\n") != strings.Join(d2, "\n") {
+			n1, n2 := 0, 0
+			for _, x := range d1 {
+				if strings.HasPrefix(x, "EVENT p-all") {
+					n1++
+				}
+			}
+			for _, x := range d2 {
+				if strings.HasPrefix(x, "EVENT p-all") {
+					n2++
+				}
+			}
+			rep.Violation("restore/answers-differ", fmt.Sprintf("a cache of capacity %d holding %d events answers the panel differently after dump/restore (restored cache lists %d events)", capacity, n1, n2),
+				map[string]any{"capacity": capacity, "events_offered": len(ms), "dump_bytes": buf.Len()})
+			return
+		}
+		rep.Count("large_dump_restore_roundtrips", 1)
+		rep.Nontrivial(fmt.Sprintf("bigdump/%d/%d", capacity, len(ms)))
+	})
+
+	// (d) SQLite handler while its bulk inserter is stalled by another connection's
+	// write lock: every EVENT must still get its accepting OK once there is room
+	nD := vk.N(3, 16)
+	vk.ParallelW(8, nD, func(i int) {
+		r := vk.RNG("C16/stall", i)
+		path := filepath.Join(t.TempDir(), fmt.Sprintf("stall%d.db", i))
+		dbA, err := sql.Open("sqlite3", "file:"+path+"?_busy_timeout=100")
+		if err != nil {
+			return
+		}
+		defer dbA.Close()
+		hctx, hcancel := context.WithCancel(ctx)
+		defer hcancel()
+		h, err := NewSQLiteHandler(hctx, dbA, &SQLiteHandlerOption{EventBulkInsertNum: 1, MaxLimit: NoLimit})
+		if err != nil {
+			rep.Inconclusive("C16: SQLite handler on a file database: " + err.Error())
+			return
+		}
+		dbB, err := sql.Open("sqlite3", "file:"+path+"?_busy_timeout=100")
+		if err != nil {
+			return
+		}
+		defer dbB.Close()
+		lockConn, err := dbB.Conn(ctx)
+		if err != nil {
+			return
+		}
+		defer lockConn.Close()
+		if _, err := lockConn.ExecContext(ctx, "BEGIN EXCLUSIVE"); err != nil {
+			rep.Inconclusive("C16: could not take the database lock")
+			return
+		}
+		release := time.AfterFunc(time.Duration(300+r.IntN(300))*time.Millisecond, func() { lockConn.ExecContext(ctx, "ROLLBACK") })
+		defer release.Stop()
+		s := vk.StartSession(ctx, h, 64)
+		defer s.Stop()
+		g := vk.NewStoreGen(r, 2, 50)
+		g.NoEphemeral = true
+		n := 5 + r.IntN(4)
+		rep.Eval(1)
+		for k := 0; k < n; k++ {
+			e := g.Next()
+			if !s.Put(&mocrelay.ClientEventMsg{Event: e}) {
+				rep.Violation("replies/stalled", "the SQLite handler stopped taking EVENTs while its inserter was stalled", nil)
+				return
+			}
+			m, ok := s.Get()
+			o, is := m.(*mocrelay.ServerOKMsg)
+			if !ok || !is || o.EventID != e.ID {
+				rep.Violation("replies/event-without-its-ok", "EVENT answered by "+vk.DescribeServerMsg(m)+" while the inserter was stalled", nil)
+				return
+			}
+			if !o.Accepted {
+				rep.Violation("ok-verdict/sqlite-rejects", fmt.Sprintf("EVENT #%d answered with a rejecting OK (%q) while the bulk inserter was stalled", k, o.Message()), nil)
+				return
+			}
+		}
+		rep.Count("sqlite_stalled_inserter_sequences", 1)
+		rep.Nontrivial(fmt.Sprintf("stall/%d", n))
+	})
+	rep.Require(rep.Counter("large_dump_restore_roundtrips") >= int64(nC*9/10), "large dump/restore round trips")
+	rep.Require(rep.Counter("sqlite_stalled_inserter_sequences") >= int64(nD*2/3), "stalled-inserter sequences")
 	rep.Require(rep.Counter("cache_sequences") >= int64(nA*9/10), "cache sequences")
 	rep.Require(rep.Counter("cache_rejected_events") > 100, "rejected events")
 	rep.Require(rep.Counter("dump_restore_roundtrips") >= int64(nA/4), "dump/restore round trips")
